@@ -3,77 +3,9 @@
    conversion behaves identically in debug and release builds and never reaches an
    `unwrap_unchecked` on None/Err. *)
 Require Import Base Syntax Consts Pst.
+Require Export PstWf.
 Open Scope string_scope.
 Open Scope list_scope.
-
-(* ---- the shapes ---- *)
-Definition wf_array (t : tree) : bool :=
-  (is_rule "unbounded_array" t) ||
-  (is_rule "bounded_array" t && match parse_count (inner_str t) with Some _ => true | None => false end).
-
-Definition wf_param_type (t : tree) : bool :=
-  is_rule "param_type" t &&
-  match t_kids t with
-  | [_] => true
-  | [_; a] => wf_array a
-  | _ => false
-  end.
-
-Definition wf_param (t : tree) : bool :=
-  match t_kids t with
-  | [m; ty; _] => (String.eqb (t_text m) "in" || String.eqb (t_text m) "out") && wf_param_type ty
-  | _ => false
-  end.
-
-Definition wf_attr (a : tree) : bool :=
-  negb (is_rule "attribute" a) || match t_kids a with [_] => true | _ => false end.
-
-Definition wf_function (t : tree) : bool :=
-  match t_kids t with
-  | kw :: _ :: ps => forallb wf_attr (t_kids kw) &&
-                     forallb (fun p => negb (is_rule "param" p) || wf_param p) ps
-  | _ => false
-  end.
-
-Definition wf_const (t : tree) : bool :=
-  match t_kids t with [_; _; _; _] => true | _ => false end.
-Definition wf_error (t : tree) : bool :=
-  match t_kids t with [_; _] => true | _ => false end.
-
-Definition wf_member (t : tree) : bool :=
-  if is_rule "COMMENT" t then true
-  else if is_rule "const" t then wf_const t
-  else if is_rule "function" t then wf_function t
-  else if is_rule "error" t then wf_error t
-  else false.
-
-Definition wf_iface (t : tree) : bool :=
-  match t_kids t with
-  | _ :: iname :: ms => match t_kids iname with [_] | [_; _] => true | _ => false end && forallb wf_member ms
-  | _ => false
-  end.
-
-Definition wf_field (t : tree) : bool :=
-  match t_kids t with
-  | [_; x] => is_rule "ident" x
-  | [_; a; _] => is_rule "bounded_array" a && match parse_count (inner_str a) with Some _ => true | None => false end
-  | _ => false
-  end.
-
-Definition wf_struct (t : tree) : bool :=
-  match t_kids t with
-  | _ :: _ :: fs => forallb (fun f => is_rule "COMMENT" f || (is_rule "struct_field" f && wf_field f)) fs
-  | _ => false
-  end.
-
-Definition wf_top (t : tree) : bool :=
-  if is_rule "include" t then match t_kids t with [_] => true | _ => false end
-  else if is_rule "struct" t then wf_struct t
-  else if is_rule "const" t then wf_const t
-  else if is_rule "interface" t then wf_iface t
-  else true.
-
-Definition wf_idl (t : tree) : bool := forallb wf_top (t_kids t).
 
 (* ---- Debug = Release on well-formed trees ---- *)
 
